@@ -17,7 +17,7 @@ def main(V, path):
         V.build_engine()
         wd = V.harness_dir(prop + ("-sched" if eng == "sched" else ""), tier)
         p = V.run([V.engine_bin("pgen"), prop, tier, wd, "0", V.ENGINE] + (["--sched"] if eng == "sched" else []))
-        V.write_ws_config(wd)
+        V.write_ws_config(wd, lints=(prop == "C03"))
         V.cargo_build_ws(wd)
         gen = json.load(open(os.path.join(wd, "gen.json")))
         cid = v["case_id"]
